@@ -22,6 +22,7 @@ type Opts struct {
 	NoSerial bool // no serial writer configured
 	ChanCap  int
 	DebugLCD bool // build the PPU in its debug configuration (Config.DebugLCD)
+	DebugCPU bool // build the CPU with its instruction trace on (Config.DebugCPU); the trace goes to os.Stdout
 }
 
 // M is one emulated machine.
@@ -66,7 +67,7 @@ func New(rom []byte, o Opts) *M {
 	m.T = timer.New()
 	m.C = controller.New()
 	m.Map = memory.New(rom, m.I, m.OAM, m.P, m.C, m.S, m.T, m.A)
-	m.CPU = cpu.New(m.I, m.OAM, false, m.Map)
+	m.CPU = cpu.New(m.I, m.OAM, o.DebugCPU, m.Map)
 	m.CPU.Initialize()
 	return m
 }
